@@ -60,11 +60,15 @@ def get_boolean_attribute(attribute_list, name, default_value=None):
         requested attribute is not found or has a non-boolean value.
     """
     attribute_value = get_attribute(attribute_list, name)
-    if not attribute_value or not attribute_value.expression.has_field(
-        "boolean_constant"
-    ):
+    if not attribute_value:
         return default_value
-    return attribute_value.expression.boolean_constant.value
+    # Any constant boolean expression is a boolean value, not only the literals
+    # `true` and `false`: `[is_signed: 1 == 1]` passes the attribute checker, so
+    # it has to be read as `true` here, not as "no value".
+    value = constant_value(attribute_value.expression)
+    if value is True or value is False:
+        return value
+    return default_value
 
 
 def get_integer_attribute(attribute_list, name, default_value=None):
@@ -132,6 +136,10 @@ def constant_value(expression, bindings=None):
             if not expression.type.enumeration.has_field("value"):
                 return None
             return int(expression.type.enumeration.value)
+        elif expression.type.which_type is None:
+            # The reference has not been type checked yet (an `[is_integer]`
+            # attribute is read while types are being worked out): no known value.
+            return None
         else:
             assert False, "Unexpected expression type {}".format(
                 expression.type.which_type
